@@ -254,10 +254,11 @@ func (x *Exec) instr(st *State, fr *Frame, b *ssa.BasicBlock, i int, in ssa.Inst
 		m := x.get(st, fr, v.Map).(Term)
 		mt := under(v.Map.Type()).(*types.Map)
 		x.implicitPanic(st, Eq(m, TInt(0)), "nilmap", "assignment to entry in nil map")
-		st.mapStore(m, st.scalar(x.get(st, fr, v.Key), mt.Key()), st.scalar(x.get(st, fr, v.Value), mt.Elem()), mt.Elem())
+		st.mapStore(m, st.scalar(x.get(st, fr, v.Key), mt.Key()), st.scalar(x.get(st, fr, v.Value), mt.Elem()), mt.Key(), mt.Elem())
 		return false
 	case *ssa.MakeMap:
-		fr.regs[v] = st.newMap()
+		mt := under(v.Type()).(*types.Map)
+		fr.regs[v] = st.newMap(mt.Key(), mt.Elem())
 		return false
 	case *ssa.MakeSlice:
 		ln := x.get(st, fr, v.Len).(Term)
@@ -820,35 +821,65 @@ func (x *Exec) sliceOp(st *State, fr *Frame, v *ssa.Slice) Val {
 
 // ---------- maps ----------
 
-func (st *State) mapHas(m Term) Term {
-	return Sel(st.comp("MH", ArrSort(SI, ArrSort(SI, SB))), m)
-}
-
-func (st *State) mapVal(m Term, vt types.Type) Term {
-	s := sortOf(vt)
-	if s == "" {
+// Map components are per (key type, value type): maps of different Go types
+// cannot alias.
+func mapNames(kt, vt types.Type) (hn, vn, vs string) {
+	vs = sortOf(vt)
+	if vs == "" {
 		unsup("map with composite value type %s", vt)
 	}
-	return Sel(st.comp("MV!"+s, ArrSort(SI, ArrSort(SI, s))), m)
+	suffix := typeName(kt) + "!" + typeName(vt)
+	return "MH!" + suffix, "MV!" + suffix, vs
 }
 
-func (st *State) mapStore(m, k, v Term, vt types.Type) {
-	h := st.comp("MH", ArrSort(SI, ArrSort(SI, SB)))
-	st.setComp("MH", Sto(h, m, Sto(Sel(h, m), k, TTrue)))
-	s := sortOf(vt)
-	vc := st.comp("MV!"+s, ArrSort(SI, ArrSort(SI, s)))
-	st.setComp("MV!"+s, Sto(vc, m, Sto(Sel(vc, m), k, v)))
+var hasSort = ArrSort(SI, ArrSort(SI, SB))
+
+func (st *State) mapHas(m Term, kt, vt types.Type) Term {
+	hn, _, _ := mapNames(kt, vt)
+	return Sel(st.comp(hn, hasSort), m)
 }
 
-func (st *State) mapDelete(m, k Term) {
-	h := st.comp("MH", ArrSort(SI, ArrSort(SI, SB)))
-	st.setComp("MH", Sto(h, m, Sto(Sel(h, m), k, TFalse)))
+func (st *State) mapVal(m Term, kt, vt types.Type) Term {
+	_, vn, vs := mapNames(kt, vt)
+	return Sel(st.comp(vn, ArrSort(SI, ArrSort(SI, vs))), m)
 }
 
-func (st *State) newMap() Term {
+func (st *State) mapStore(m, k, v Term, kt, vt types.Type) {
+	hn, vn, vs := mapNames(kt, vt)
+	h := st.comp(hn, hasSort)
+	st.setComp(hn, Sto(h, m, Sto(Sel(h, m), k, TTrue)))
+	vc := st.comp(vn, ArrSort(SI, ArrSort(SI, vs)))
+	st.setComp(vn, Sto(vc, m, Sto(Sel(vc, m), k, v)))
+}
+
+// mapStoreIf stores v under k when set holds.
+func (st *State) mapStoreIf(m, k, v, set Term, kt, vt types.Type) {
+	hn, vn, vs := mapNames(kt, vt)
+	h := st.comp(hn, hasSort)
+	st.setComp(hn, Sto(h, m, Sto(Sel(h, m), k, Or(set, Sel(Sel(h, m), k)))))
+	vc := st.comp(vn, ArrSort(SI, ArrSort(SI, vs)))
+	st.setComp(vn, Sto(vc, m, Sto(Sel(vc, m), k, Ite(set, v, Sel(Sel(vc, m), k)))))
+}
+
+func (st *State) mapDelete(m, k Term, kt, vt types.Type) {
+	hn, _, _ := mapNames(kt, vt)
+	h := st.comp(hn, hasSort)
+	st.setComp(hn, Sto(h, m, Sto(Sel(h, m), k, TFalse)))
+}
+
+func (st *State) mapCopy(dst, src Term, kt, vt types.Type) {
+	hn, vn, vs := mapNames(kt, vt)
+	h := st.comp(hn, hasSort)
+	st.setComp(hn, Sto(h, dst, Sel(h, src)))
+	vc := st.comp(vn, ArrSort(SI, ArrSort(SI, vs)))
+	st.setComp(vn, Sto(vc, dst, Sel(vc, src)))
+}
+
+func (st *State) newMap(kt, vt types.Type) Term {
+	hn, _, _ := mapNames(kt, vt)
 	m := st.allocRef()
-	h := st.comp("MH", ArrSort(SI, ArrSort(SI, SB)))
-	st.setComp("MH", Sto(h, m, Term{"((as const (Array Int Bool)) false)", ArrSort(SI, SB)}))
+	h := st.comp(hn, hasSort)
+	st.setComp(hn, Sto(h, m, Term{"((as const (Array Int Bool)) false)", ArrSort(SI, SB)}))
 	return m
 }
 
@@ -856,8 +887,8 @@ func (x *Exec) lookup(st *State, fr *Frame, v *ssa.Lookup) Val {
 	if mt, ok := under(v.X.Type()).(*types.Map); ok {
 		m := x.get(st, fr, v.X).(Term)
 		k := st.scalar(x.get(st, fr, v.Index), mt.Key())
-		has := And(Neq(m, TInt(0)), Sel(st.mapHas(m), k))
-		raw := Sel(st.mapVal(m, mt.Elem()), k)
+		has := And(Neq(m, TInt(0)), Sel(st.mapHas(m, mt.Key(), mt.Elem()), k))
+		raw := Sel(st.mapVal(m, mt.Key(), mt.Elem()), k)
 		st.assumeLoaded(raw, mt.Elem())
 		val := Ite(has, raw, zeroVal(mt.Elem()).(Term))
 		if v.CommaOk {
